@@ -1582,8 +1582,10 @@ def _escape_docstring(s):
 
 def _format_morphset(obj, indent):
     mstype = 'letter-set' if isinstance(obj, LetterSet) else 'wild-card'
+    # the parser unescapes, so escape what cannot appear literally
+    characters = re.sub(r'([) \\])', r'\\\1', obj.characters)
     return '{}%({} ({} {}))'.format(
-        ' ' * indent, mstype, obj.var, obj.characters)
+        ' ' * indent, mstype, obj.var, characters)
 
 
 def _format_environment(env, indent):
